@@ -68,57 +68,65 @@ Definition c_entries (c : cstate) : list (Z * nat) :=
   end.
 Definition bids (c : cstate) : list nat := map snd (c_entries c).
 
-(** LRU: table, nodes and list agree. *)
+(** LRU and FIFO: table, nodes and list agree. *)
 Definition lru_ok (c : cstate) : Prop :=
   NoDup (map snd (c_table c)) /\ NoDup (c_order c) /\
   (forall nid, In nid (c_order c) <-> In nid (map snd (c_table c))) /\
   (forall nid, In nid (map snd (c_table c)) -> (nid < length (c_nodes c))%nat).
 
 Record cache_ok (F : file) (st : store) (c : cstate) : Prop := {
-  co_kind : c_kind c <> KFIFO;
   co_cap : 1 <= c_cap c;
   co_keys : NoDup (map fst (c_entries c));
   co_bids : NoDup (bids c);
   co_good : forall k bid, In (k, bid) (c_entries c) -> (bid < length st)%nat /\ good F (sget st bid) k;
-  co_lru : c_kind c = KLRU -> lru_ok c }.
+  co_lru : c_kind c <> KRandom -> lru_ok c }.
 
 (** What the reader needs from a cache (proved for LRU and Random below). *)
 Definition get_contract (F : file) : Prop :=
   forall st c k, cache_ok F st c ->
     match c_get st c k with
     | Ok (c', Some bid) =>
-        In (k, bid) (c_entries c) /\ cache_ok F st c' /\
-        (forall e, In e (c_entries c') -> In e (c_entries c) /\ e <> (k, bid))
+        In (k, bid) (c_entries c) /\ cache_ok F st c' /\ c_kind c' = c_kind c /\
+        (forall e, In e (c_entries c') -> In e (c_entries c)) /\
+        (c_kind c <> KFIFO -> forall e, In e (c_entries c') -> e <> (k, bid))
     | Ok (c', None) => c' = c /\ (forall bid, ~ In (k, bid) (c_entries c))
     | _ => False
     end.
 
 Definition put_contract (F : file) : Prop :=
-  forall st c bid kb, cache_ok F st c -> (bid < length st)%nat -> good F (sget st bid) kb -> ~ In bid (bids c) ->
+  forall st c bid kb, cache_ok F st c -> (bid < length st)%nat -> good F (sget st bid) kb ->
+    (~ In bid (bids c) \/ c_kind c = KFIFO) ->
     match c_put st c bid with
-    | Ok (c', back, false) => c' = c /\ back = Some bid
+    | Ok (c', back, false) =>
+        c' = c /\ ((back = Some bid /\ ~ In bid (bids c)) \/ (back = None /\ In bid (bids c)))
     | Ok (c', back, true) =>
-        cache_ok F st c' /\ (forall e, In e (c_entries c') -> e = (kb, bid) \/ In e (c_entries c))
+        ~ In bid (bids c) /\ cache_ok F st c' /\ c_kind c' = c_kind c /\
+        (forall e, In e (c_entries c') -> e = (kb, bid) \/ In e (c_entries c))
     | _ => False
     end.
 
 Definition peek_contract : Prop :=
-  forall st c k, c_kind c <> KFIFO -> (forall bid, ~ In (k, bid) (c_entries c)) -> c_peek st c k = (false, -1).
+  forall st c k, (forall bid, ~ In (k, bid) (c_entries c)) -> c_peek st c k = (false, -1).
 
-(** The cache only looks at the blocks it holds (and at the block that is put). *)
-Definition frame_contract (F : file) : Prop :=
-  forall st st' c, cache_ok F st c -> (length st <= length st')%nat ->
-    (forall bid, In bid (bids c) -> sget st' bid = sget st bid) -> cache_ok F st' c.
-
-Definition get_frame : Prop :=
-  forall st st' c k, (forall bid, In bid (bids c) -> sget st' bid = sget st bid) -> c_get st' c k = c_get st c k.
-
-Lemma frame_holds (F : file) : frame_contract F.
+(** The invariant survives any change of the store that keeps the cached blocks good. *)
+Lemma frame_holds (F : file) (st st' : store) (c : cstate) :
+  cache_ok F st c -> (length st <= length st')%nat ->
+  (forall bid k, In (k, bid) (c_entries c) -> good F (sget st bid) k -> good F (sget st' bid) k) -> cache_ok F st' c.
 Proof.
-  intros st st' c [K C Nk Nb G L] Hlen Hsame. constructor; auto.
-  intros k bid Hin. destruct (G k bid Hin) as [Hl Hg]. split; [lia|].
-  rewrite Hsame; [exact Hg|]. unfold bids. apply in_map_iff. exists (k, bid). auto.
+  intros [C Nk Nb G L] Hlen Hsame. constructor; auto.
+  intros k bid Hin. destruct (G k bid Hin) as [Hl Hg]. split; [lia|]. apply (Hsame bid k Hin Hg).
 Qed.
+
+Lemma frame_same (F : file) (st st' : store) (c : cstate) :
+  cache_ok F st c -> (length st <= length st')%nat ->
+  (forall bid, In bid (bids c) -> sget st' bid = sget st bid) -> cache_ok F st' c.
+Proof.
+  intros Hok Hlen Hsame. apply (frame_holds F st st' c Hok Hlen).
+  intros bid k Hin Hg. rewrite Hsame; [exact Hg|]. unfold bids. apply in_map_iff. exists (k, bid). auto.
+Qed.
+
+Lemma ckind_eq_dec (a b : ckind) : {a = b} + {a <> b}.
+Proof. decide equality. Qed.
 
 (** ---- the simulation relation *)
 
@@ -130,7 +138,7 @@ Hypothesis HPut : put_contract F.
 Hypothesis HPeek : peek_contract.
 
 Definition cache_rel (st : store) (i : nat) (oc : option cstate) : Prop :=
-  match oc with None => True | Some c => cache_ok F st c /\ ~ In i (bids c) end.
+  match oc with None => True | Some c => cache_ok F st c /\ (c_kind c <> KFIFO -> ~ In i (bids c)) end.
 
 Record csr (s : rstate) (v : vstate) : Prop := {
   cs_err : r_err s = v_err v;
@@ -161,6 +169,24 @@ Qed.
 Lemma sget_app_old (st : store) (b : block) (j : nat) : (j < length st)%nat -> sget (st ++ [b]) j = sget st j.
 Proof. intros. unfold sget. apply app_nth1. exact H. Qed.
 
+Lemma entry_of_bid (st : store) (c : cstate) (bid : nat) (kb : Z) :
+  cache_ok F st c -> In bid (bids c) -> good F (sget st bid) kb -> In (kb, bid) (c_entries c).
+Proof.
+  intros Hok Hin Hg. unfold bids in Hin. apply in_map_iff in Hin. destruct Hin as ([k' b'] & E & Hin). simpl in E. subst b'.
+  destruct (co_good _ _ _ Hok k' bid Hin) as [_ Hg'].
+  destruct Hg as (_ & _ & _ & _ & _ & B1 & _). destruct Hg' as (_ & _ & _ & _ & _ & B2 & _). congruence.
+Qed.
+
+Lemma entries_same_bid (st : store) (c : cstate) (k k' : Z) (bid : nat) :
+  cache_ok F st c -> In (k, bid) (c_entries c) -> In (k', bid) (c_entries c) -> k = k'.
+Proof.
+  intros Hok H1 H2. destruct (co_good _ _ _ Hok _ _ H1) as [_ (_ & _ & _ & _ & _ & B1 & _)].
+  destruct (co_good _ _ _ Hok _ _ H2) as [_ (_ & _ & _ & _ & _ & B2 & _)]. congruence.
+Qed.
+
+Lemma good_seek0 {b k} o : good F b k -> good F (b_seek b o) k.
+Proof. intros (pre & m & post & H). exists pre, m, post. exact H. Qed.
+
 (** cacheSwap for a key that is not the current block's, on a reader whose
     current block (if it has data) is good. *)
 Lemma cacheSwap_sim (s : rstate) (v : vstate) (k : Z) :
@@ -181,40 +207,34 @@ Proof.
   unfold r_cacheSwap. destruct (r_cache s) as [c|] eqn:Hc.
   2:{ right. exists s. split; [reflexivity|]. rewrite Hc. auto 10. }
   simpl in Hcr. destruct Hcr as [Hok Hnin].
+  assert (Hgcur : b_has (sget (r_st s) i) = true -> good F (sget (r_st s) i) (b_base (v_cur v))).
+  { intros Hh. destruct Hbeq as (B1 & B2 & B3 & B4 & B5 & B6).
+    assert (Hhv : b_has (v_cur v) = true) by congruence.
+    apply (good_beq (Hvg Hhv)). unfold beq. repeat split; congruence. }
+  assert (Hpre : forall c0, c_kind c0 = c_kind c -> (forall e, In e (c_entries c0) -> In e (c_entries c)) ->
+                 ~ In i (bids c0) \/ c_kind c0 = KFIFO).
+  { intros c0 Hk0 Hsub0. destruct (ckind_eq_dec (c_kind c) KFIFO) as [Ef|Nf]; [right; congruence|].
+    left. intros Hx. apply (Hnin Nf). unfold bids in *. apply in_map_iff in Hx. destruct Hx as (e & E1 & E2).
+    apply in_map_iff. exists e. split; [exact E1|apply Hsub0; exact E2]. }
   pose proof (HGet (r_st s) c k Hok) as HG.
-  destruct (c_get (r_st s) c k) as [[c1 [bid|]]| | |]; try contradiction.
+  destruct (c_get (r_st s) c k) as [[c1 [bid|]]| | |] eqn:Hget; try contradiction.
   - (* hit *)
-    left. destruct HG as (Hin & Hok1 & Hsub).
+    left. destruct HG as (Hin & Hok1 & Hkind1 & Hsub & Hrem).
     destruct (co_good _ _ _ Hok k bid Hin) as [Hbl1 Hgood].
     pose proof Hgood as (pre & m & post & S & Hmk & G1 & G2 & G3 & G4).
     rewrite G4. simpl negb. cbv iota.
     assert (Hbi : bid <> i).
-    { intros ->. apply Hnin. unfold bids. apply in_map_iff. exists (k, i). auto. }
-    assert (Hnb1 : ~ In bid (bids c1)).
-    { intros Hx. unfold bids in Hx. apply in_map_iff in Hx. destruct Hx as ([k' b'] & Hb' & Hin').
-      simpl in Hb'. subst b'. destruct (Hsub _ Hin') as [Hin0 Hneq].
-      (* two entries with the same block id *)
-      pose proof (co_bids _ _ _ Hok) as Nb. unfold bids in Nb.
-      assert (k' = k).
-      { clear -Nb Hin0 Hin. induction (c_entries c) as [|[a b] l IH]; [contradiction|].
-        simpl in Nb. inversion Nb; subst.
-        destruct Hin0 as [E0|I0]; destruct Hin as [E1|I1].
-        - congruence.
-        - inversion E0; subst. exfalso. apply H1. apply in_map_iff. exists (k, bid). auto.
-        - inversion E1; subst. exfalso. apply H1. apply in_map_iff. exists (k', bid). auto.
-        - apply IH; assumption. }
-      subst k'. apply Hneq. reflexivity. }
+    { intros ->. destruct Hbeq as (B1 & _ & _ & _ & _ & B6). apply Hne; congruence. }
     set (st1 := sset (r_st s) bid (b_seek (sget (r_st s) bid) 0)).
     assert (Hok1' : cache_ok F st1 c1).
     { apply (frame_holds F (r_st s) st1 c1 Hok1); [unfold st1; rewrite sset_length; lia|].
-      intros b Hb. unfold st1. apply sget_sset_other. intros ->. contradiction. }
+      intros b kk Hb Hg. unfold st1. destruct (Nat.eq_dec b bid) as [->|Hnb].
+      - rewrite sget_sset_same by exact Hbl1. apply good_seek0. exact Hg.
+      - rewrite sget_sset_other by (intros E; subst; congruence). exact Hg. }
     (* cachePut(current) *)
     unfold r_cachePut. simpl r_cur. rewrite Hci. simpl r_st.
     assert (Hsgi : sget st1 i = sget (r_st s) i) by (unfold st1; apply sget_sset_other; exact Hbi).
     rewrite Hsgi.
-    assert (Hni1 : ~ In i (bids c1)).
-    { intros Hx. apply Hnin. unfold bids in *. apply in_map_iff in Hx. destruct Hx as (e & He1 & He2).
-      apply in_map_iff. exists e. split; [exact He1|]. apply (Hsub e He2). }
     assert (Hfill : fetch F k = FOk m) by (rewrite <- Hmk; apply (fetch_at S)).
     assert (Hres : beq (b_seek (sget (r_st s) bid) 0) (fst (b_fill F (v_cur v) k)) /\ snd (b_fill F (v_cur v) k) = eNil).
     { unfold b_fill. rewrite Hfill. simpl. split; [|reflexivity]. unfold beq, b_seek; simpl.
@@ -222,25 +242,27 @@ Proof.
     destruct Hres as [Hres1 Hres2].
     assert (Hvg' : vgood F (fst (b_fill F (v_cur v) k))).
     { destruct (fill_beq F (v_cur v) (v_cur v) k W Hk) as (_ & _ & Hv & _). exact Hv. }
+    (* the new current block is not in the cache unless the cache is a FIFO *)
+    assert (Hnb1 : c_kind c1 <> KFIFO -> ~ In bid (bids c1)).
+    { intros Hkf Hx. unfold bids in Hx. apply in_map_iff in Hx. destruct Hx as ([k' b'] & Hb' & Hin').
+      simpl in Hb'. subst b'. pose proof (Hsub _ Hin') as Hin0.
+      rewrite (entries_same_bid _ _ _ _ _ Hok Hin0 Hin) in Hin'.
+      apply (Hrem ltac:(congruence) _ Hin'). reflexivity. }
     destruct (b_has (sget (r_st s) i)) eqn:Hhas.
-    + (* the current block has data: it is put *)
-      simpl negb. cbv iota.
-      assert (Hgi : good F (sget st1 i) (b_base (v_cur v))).
-      { rewrite Hsgi. destruct Hbeq as (B1 & B2 & B3 & B4 & B5 & B6).
-        assert (Hhv : b_has (v_cur v) = true) by congruence.
-        apply (good_beq (Hvg Hhv)). unfold beq. repeat split; congruence. }
-      pose proof (HPut st1 c1 i (b_base (v_cur v)) Hok1' ltac:(unfold st1; rewrite sset_length; exact Hil) Hgi Hni1) as HP.
+    + simpl negb. cbv iota.
+      assert (Hgi : good F (sget st1 i) (b_base (v_cur v))) by (rewrite Hsgi; apply Hgcur; reflexivity).
+      pose proof (HPut st1 c1 i (b_base (v_cur v)) Hok1' ltac:(unfold st1; rewrite sset_length; exact Hil) Hgi (Hpre c1 Hkind1 Hsub)) as HP.
       destruct (c_put st1 c1 i) as [[[c2 back] ret]| | |]; try contradiction.
       eexists. split; [reflexivity|]. split; [|exact Hres2].
       constructor; simpl; auto.
       exists bid. split; [reflexivity|]. split; [unfold st1; rewrite sset_length; exact Hbl1|].
       split; [unfold st1; rewrite sget_sset_same by exact Hbl1; exact Hres1|].
       destruct ret.
-      * destruct HP as [Hok2 Hsub2]. split; [exact Hok2|].
-        intros Hx. unfold bids in Hx. apply in_map_iff in Hx. destruct Hx as ([k' b'] & Hb' & Hin').
+      * destruct HP as (Hni & Hok2 & Hk2 & Hsub2). split; [exact Hok2|].
+        intros Hkf Hx. unfold bids in Hx. apply in_map_iff in Hx. destruct Hx as ([k' b'] & Hb' & Hin').
         simpl in Hb'. subst b'. destruct (Hsub2 _ Hin') as [E|I2].
         -- inversion E. congruence.
-        -- apply Hnb1. unfold bids. apply in_map_iff. exists (k', bid). auto.
+        --            apply (Hnb1 ltac:(congruence)). unfold bids. apply in_map_iff. exists (k', bid). auto.
       * destruct HP as [-> _]. split; [exact Hok1'|exact Hnb1].
     + simpl negb. cbv iota.
       eexists. split; [reflexivity|]. split; [|exact Hres2].
@@ -254,25 +276,26 @@ Proof.
     destruct (b_has (sget (r_st s) i)) eqn:Hhas.
     + simpl negb. cbv iota.
       assert (Hhv : b_has (v_cur v) = true) by (destruct Hbeq as (_ & _ & _ & _ & _ & B6); congruence).
-      assert (Hgi : good F (sget (r_st s) i) (b_base (v_cur v))).
-      { destruct Hbeq as (B1 & B2 & B3 & B4 & B5 & B6). apply (good_beq (Hvg Hhv)). unfold beq. repeat split; congruence. }
-      pose proof (HPut (r_st s) c i (b_base (v_cur v)) Hok Hil Hgi Hnin) as HP.
+      pose proof (HPut (r_st s) c i (b_base (v_cur v)) Hok Hil (Hgcur eq_refl) (Hpre c eq_refl ltac:(auto))) as HP.
       destruct (c_put (r_st s) c i) as [[[c2 back] ret]| | |]; try contradiction.
       eexists. split; [reflexivity|]. simpl.
       split; [reflexivity|]. split; [reflexivity|]. split; [reflexivity|]. split; [lia|].
       destruct ret.
-      * destruct HP as [Hok2 Hsub2]. split; [exact Hok2|]. split.
+      * destruct HP as (_ & Hok2 & _ & Hsub2). split; [exact Hok2|]. split.
         -- intros b Hx. destruct (Hsub2 _ Hx) as [E|I2]; [inversion E; specialize (Hne Hhv); congruence|exact (Hmiss _ I2)].
         -- split; [reflexivity|]. right. reflexivity.
-      * destruct HP as [-> ->]. split; [exact Hok|]. split; [exact Hmiss|]. split; [reflexivity|]. left.
-        split; [reflexivity|]. intros i' Hi'. inversion Hi'; subst. exact Hnin.
+      * destruct HP as [-> [[-> Hni]|[-> Hi]]]; (split; [exact Hok|]); (split; [exact Hmiss|]); (split; [reflexivity|]).
+        -- left. split; [reflexivity|]. intros i' Hi'. inversion Hi'; subst. exact Hni.
+        -- right. reflexivity.
     + simpl negb. cbv iota.
       eexists. split; [reflexivity|]. simpl.
       split; [reflexivity|]. split; [reflexivity|]. split; [reflexivity|]. split; [lia|].
       split; [exact Hok|]. split; [exact Hmiss|]. split; [reflexivity|]. left.
-      split; [reflexivity|]. intros i' Hi'. inversion Hi'; subst. exact Hnin.
+      split; [reflexivity|]. intros i' Hi'. inversion Hi'; subst.
+      (* a block without data is not in the cache *)
+      intros Hx. unfold bids in Hx. apply in_map_iff in Hx. destruct Hx as ([k' b'] & E & Hin'). simpl in E. subst b'.
+      destruct (co_good _ _ _ Hok _ _ Hin') as [_ (_ & _ & _ & _ & _ & _ & _ & _ & Hh)]. congruence.
 Qed.
-
 
 Definition swapfetch (s : rstate) (k : Z) : outcome (rstate * Z) :=
   match r_cacheSwap s k with
@@ -298,7 +321,7 @@ Proof.
     unfold r_fetch.
     assert (Hpk : r_peekchain (S (length (match r_cache s1 with Some c => c_table c | None => [] end))) s1 k = Ok k).
     { simpl. destruct (r_cache s1) as [c'|]; [|reflexivity].
-      destruct Hcache as (Hok' & Hmiss & _). rewrite (HPeek (r_st s1) c' k (co_kind _ _ _ Hok') Hmiss). reflexivity. }
+      destruct Hcache as (Hok' & Hmiss & _). rewrite (HPeek (r_st s1) c' k Hmiss). reflexivity. }
     rewrite Hpk.
     destruct (fill_beq F (v_cur v) (v_cur v) k W Hk) as (_ & _ & Hvg' & _).
     destruct (r_cache s1) as [c'|] eqn:Hc1.
@@ -312,9 +335,9 @@ Proof.
         exists i. split; [reflexivity|]. rewrite sset_length. split; [exact Hil|].
         rewrite sget_sset_same by exact Hil. split; [exact Hb|].
         rewrite Hc1. simpl. split.
-        -- apply (frame_holds F (r_st s) _ c'); [rewrite <- Hst; exact Hok'|rewrite sset_length; lia|].
+        -- apply (frame_same F (r_st s) _ c'); [rewrite <- Hst; exact Hok'|rewrite sset_length; lia|].
            intros b0 Hb0. apply sget_sset_other. intros E. subst b0. exact (Hnin i Hci Hb0).
-        -- exact (Hnin i Hci).
+        -- intros _. exact (Hnin i Hci).
       * (* the current block went into the cache: a new block *)
         rewrite Hcur. rewrite Hst.
         destruct (fill_beq F (sget (r_st s ++ [b_new]) (length (r_st s))) (v_cur v) k W Hk) as (Hb & Hs & _).
@@ -326,8 +349,8 @@ Proof.
         constructor; simpl; try congruence; auto.
         exists (length (r_st s)). split; [reflexivity|]. rewrite sset_length. split; [exact Hl2|].
         rewrite sget_sset_same by exact Hl2. split; [exact Hb|].
-        rewrite Hc1. simpl. split; [|exact Hfresh].
-        apply (frame_holds F (r_st s) _ c'); [rewrite <- Hst; exact Hok'|rewrite sset_length, app_length; simpl; lia|].
+        rewrite Hc1. simpl. split; [|intros _; exact Hfresh].
+        apply (frame_same F (r_st s) _ c'); [rewrite <- Hst; exact Hok'|rewrite sset_length, app_length; simpl; lia|].
         intros b0 Hb0. rewrite sget_sset_other by (intros E; subst b0; contradiction).
         apply sget_app_old. rewrite <- Hst. apply (bids_lt _ _ Hok' _ Hb0).
     + destruct Hcache as [Hcur Hst]. rewrite Hcur, Hci, Hst.
@@ -400,20 +423,37 @@ Proof. intros (B1 & B2 & B3 & B4 & B5 & B6). unfold b_len. rewrite B3, B4, B6. r
 Lemma beq_tx {b b'} : beq b b' -> b_tx b = b_tx b'.
 Proof. intros (B1 & B2 & B3 & B4 & B5 & B6). unfold b_tx. rewrite B1, B5. reflexivity. Qed.
 
-(** Replacing the current block by an equal one. *)
+(** Replacing the current block by an equal one that stays the same member block. *)
+Definition keeps_good (b0 b : block) : Prop := forall k, good F b0 k -> good F b k.
+
 Lemma csr_set_cur (s : rstate) (v : vstate) (i : nat) (b bv : block) :
-  csr s v -> r_cur s = Some i -> beq b bv -> vgood F bv ->
+  csr s v -> r_cur s = Some i -> beq b bv -> vgood F bv -> keeps_good (sget (r_st s) i) b ->
   csr (rs_st s (sset (r_st s) i b)) (set_cur v bv).
 Proof.
-  intros [He Hlc Hbl Hvg (i' & Hci & Hil & Hbeq & Hcr)] Hi Hb Hv.
+  intros [He Hlc Hbl Hvg (i' & Hci & Hil & Hbeq & Hcr)] Hi Hb Hv Hkg.
   rewrite Hi in Hci. inversion Hci; subst i'.
   constructor; simpl; auto.
   exists i. split; [exact Hi|]. rewrite sset_length. split; [exact Hil|].
   rewrite sget_sset_same by exact Hil. split; [exact Hb|].
   destruct (r_cache s) as [c|]; [|exact I]. destruct Hcr as [Hok Hnin]. split; [|exact Hnin].
   apply (frame_holds F (r_st s) _ c Hok); [rewrite sset_length; lia|].
-  intros b0 Hb0. apply sget_sset_other. intros E. subst b0. contradiction.
+  intros b0 k Hin Hg. destruct (Nat.eq_dec b0 i) as [->|Hne].
+  - rewrite sget_sset_same by exact Hil. apply Hkg. exact Hg.
+  - rewrite sget_sset_other by (intros E; subst; congruence). exact Hg.
 Qed.
+
+Lemma keeps_read (b : block) (n : Z) : keeps_good b (fst (fst (b_read b n))).
+Proof.
+  intros k (pre & m & post & H). unfold b_read. destruct (zlen (b_data b) <=? b_pos b); simpl; exists pre, m, post; exact H.
+Qed.
+
+Lemma keeps_readbyte (b : block) : keeps_good b (fst (fst (b_readbyte b))).
+Proof.
+  intros k (pre & m & post & H). unfold b_readbyte. destruct (zlen (b_data b) <=? b_pos b); simpl; exists pre, m, post; exact H.
+Qed.
+
+Lemma keeps_seek (b : block) (o : Z) : keeps_good b (b_seek b o).
+Proof. intros k (pre & m & post & H). exists pre, m, post. exact H. Qed.
 
 Lemma csr_cur_tx (s : rstate) (v : vstate) : csr s v -> cur_tx s = b_tx (v_cur v).
 Proof.
@@ -480,11 +520,12 @@ Proof.
     pose proof Hcs as [_ _ Hbl Hvg (i & Hci & Hil & Hbeq & _)].
     unfold with_cur. rewrite Hci.
     destruct (beq_read (n - zlen acc) Hbeq) as (Hb1 & Hb2 & Hb3).
+    pose proof (keeps_read (sget (r_st s) i) (n - zlen acc)) as Hkg.
     pose proof (vgood_read (n - zlen acc) Hvg) as Hvg1.
     pose proof (@has_read (v_cur v) (n - zlen acc)) as Hh1.
     destruct (b_read (v_cur v) (n - zlen acc)) as [[bv bsv] ev].
     destruct (b_read (sget (r_st s) i) (n - zlen acc)) as [[br bsr] er].
-    simpl in Hb1, Hb2, Hb3, Hvg1, Hh1. subst bsr er.
+    simpl in Hb1, Hb2, Hb3, Hvg1, Hh1, Hkg. subst bsr er.
     assert (Hcs1 : csr (rs_st s (sset (r_st s) i br)) (set_cur v bv)) by (apply csr_set_cur; assumption).
     assert (Hhas1 : b_has (v_cur (set_cur v bv)) = true) by (simpl; congruence).
     destruct (ev =? eEOF).
@@ -555,12 +596,13 @@ Proof.
   pose proof Hcs2 as [_ _ Hbl Hvg (i & Hci & Hil & Hbeq & _)].
   unfold with_cur. rewrite Hci.
   destruct (beq_readbyte Hbeq) as (Hb1 & Hb2 & Hb3).
+  pose proof (keeps_readbyte (sget (r_st s2) i)) as Hkg.
   pose proof (vgood_readbyte Hvg) as Hvg1.
   pose proof (@has_readbyte (v_cur v2)) as Hhb.
   change (v_cur v2) with (v_cur v1) in *.
   destruct (b_readbyte (v_cur v1)) as [[bv bsv] ev].
   destruct (b_readbyte (sget (r_st s2) i)) as [[br bsr] er].
-  simpl in Hb1, Hb2, Hb3, Hvg1, Hhb. subst bsr er.
+  simpl in Hb1, Hb2, Hb3, Hvg1, Hhb, Hkg. subst bsr er.
   assert (Hcs3 : csr (rs_st s2 (sset (r_st s2) i br)) (set_cur v2 bv)) by (apply csr_set_cur; assumption).
   assert (Hhas3 : b_has (v_cur (set_cur v2 bv)) = true) by (simpl; congruence).
   assert (Hbl1 : r_blocked s1 = v_blocked v1) by exact (cs_bl _ _ Hcs1).
@@ -608,7 +650,7 @@ Proof.
       pose proof Hbeq2 as (_ & _ & _ & _ & _ & B62). simpl in B62. rewrite B62, (Hhasf eq_refl). simpl negb. cbv iota.
       eexists. split; [reflexivity|].
       apply (csr_misc _ (set_cur (set_cur v b) (b_seek b o)) eNil ((f, o), (f, o))).
-      exact (csr_set_cur s1 (set_cur v b) i2 (b_seek (sget (r_st s1) i2) o) (b_seek b o) Hcs2 Hci2 (beq_seek o Hbeq2) (vgood_seek o Hvg2)).
+      exact (csr_set_cur s1 (set_cur v b) i2 (b_seek (sget (r_st s1) i2) o) (b_seek b o) Hcs2 Hci2 (beq_seek o Hbeq2) (vgood_seek o Hvg2) (keeps_seek _ o)).
     + (* miss: fetched *)
       rewrite Hsf.
       destruct (e =? eNil) eqn:Ee; simpl negb; cbv iota.
@@ -618,7 +660,7 @@ Proof.
         pose proof Hbeq2 as (_ & _ & _ & _ & _ & B62). simpl in B62. simpl r_st. rewrite B62, (Hhasf eq_refl). simpl negb. cbv iota.
         eexists. split; [reflexivity|].
         apply (csr_misc _ (set_cur (set_err (set_cur v b) eNil) (b_seek b o)) eNil ((f, o), (f, o))).
-        exact (csr_set_cur (rs_err s2 eNil) (set_err (set_cur v b) eNil) i2 (b_seek (sget (r_st s2) i2) o) (b_seek b o) Hcs2' Hci2 (beq_seek o Hbeq2) (vgood_seek o Hvg2)).
+        exact (csr_set_cur (rs_err s2 eNil) (set_err (set_cur v b) eNil) i2 (b_seek (sget (r_st s2) i2) o) (b_seek b o) Hcs2' Hci2 (beq_seek o Hbeq2) (vgood_seek o Hvg2) (keeps_seek _ o)).
       * eexists. split; [reflexivity|]. apply csr_err. exact Hcs2.
   - (* the current block is the one sought *)
     change (negb (eNil =? eNil)) with false. cbv iota. rewrite Hci.
@@ -626,13 +668,12 @@ Proof.
     rewrite B6, H2. simpl negb. cbv iota.
     eexists. split; [reflexivity|].
     apply (csr_misc _ (set_cur v (b_seek (v_cur v) o)) eNil ((f, o), (f, o))).
-    exact (csr_set_cur s v i (b_seek (sget (r_st s) i) o) (b_seek (v_cur v) o) Hcs Hci (beq_seek o Hbeq) (vgood_seek o Hvg)).
+    exact (csr_set_cur s v i (b_seek (sget (r_st s) i) o) (b_seek (v_cur v) o) Hcs Hci (beq_seek o Hbeq) (vgood_seek o Hvg) (keeps_seek _ o)).
 Qed.
 
 
 (** ---- histories *)
 
-Definition cache_op_ok (o : rop) : Prop := match o with OSetCache k _ => k <> KFIFO | _ => True end.
 
 Lemma sim_nil_has {v f} : sim F v f -> v_err v = eNil -> b_has (v_cur v) = true.
 Proof.
@@ -650,9 +691,9 @@ Lemma csr_blen (s : rstate) (v : vstate) : csr s v -> r_blen s = b_len (v_cur v)
 Proof. intros [_ _ _ _ (i & Hci & _ & Hbeq & _)]. unfold r_blen. rewrite Hci. apply (beq_len Hbeq). Qed.
 
 Lemma empty_cache_ok (st : store) (k : ckind) (cap : Z) (ch : list nat) :
-  k <> KFIFO -> 1 <= cap -> cache_ok F st (c_empty k cap ch).
+  1 <= cap -> cache_ok F st (c_empty k cap ch).
 Proof.
-  intros Hk Hc. constructor; simpl; auto.
+  intros Hc. constructor; simpl; auto.
   - unfold c_entries. simpl. destruct k; constructor.
   - unfold bids, c_entries. simpl. destruct k; constructor.
   - unfold c_entries. simpl. destruct k; intros ? ? [].
@@ -660,10 +701,10 @@ Proof.
 Qed.
 
 Lemma step_c (ch : list nat) (s : rstate) (v : vstate) (f : fstate) (o : rop) :
-  csr s v -> sim F v f -> valid_op F o -> cache_op_ok o ->
+  csr s v -> sim F v f -> valid_op F o ->
   exists s' v' r, v_step F v o = Ok (v', r) /\ r_step F ch s o = Ok (s', r) /\ csr s' v' /\ sim F v' (fst (flat_step F f o)).
 Proof.
-  intros Hcs Hsim Hv Hco.
+  intros Hcs Hsim Hv.
   destruct (step_sim F v f o W Hsim Hv) as (v' & r & Hvs & _ & Hsim').
   destruct o as [fo bo|n| |b| |k cap]; simpl in Hvs |- *.
   - destruct (seek_sim_c s v fo bo Hcs (valid_off_nonneg fo bo Hv)) as (s' & Hrs & Hcs').
@@ -686,18 +727,18 @@ Proof.
     destruct Hcs as [He Hlc Hbl Hvg (i & Hci & Hil & Hbeq & Hcr)]. constructor; simpl; auto.
     exists i. split; [exact Hci|]. split; [exact Hil|]. split; [exact Hbeq|].
     destruct (Z.ltb_spec cap 1); simpl; [exact I|].
-    split; [apply empty_cache_ok; [exact Hco|lia]|].
+    split; [apply empty_cache_ok; lia|]. intros _.
     unfold bids, c_entries. simpl. destruct k; simpl; tauto.
 Qed.
 
 Lemma run_c (ch : list nat) : forall ops s v f,
-  csr s v -> sim F v f -> Forall (valid_op F) ops -> Forall cache_op_ok ops ->
+  csr s v -> sim F v f -> Forall (valid_op F) ops ->
   r_run F ch s ops = v_run F v ops.
 Proof.
-  induction ops as [|o ops IH]; intros s v f Hcs Hsim Hv Hco; [reflexivity|].
-  inversion Hv; subst. inversion Hco; subst.
-  destruct (step_c ch s v f o Hcs Hsim H1 H3) as (s' & v' & r & Hvs & Hrs & Hcs' & Hsim').
-  simpl. rewrite Hvs, Hrs. rewrite (IH s' v' _ Hcs' Hsim' H2 H4).
+  induction ops as [|o ops IH]; intros s v f Hcs Hsim Hv; [reflexivity|].
+  inversion Hv; subst.
+  destruct (step_c ch s v f o Hcs Hsim H1) as (s' & v' & r & Hvs & Hrs & Hcs' & Hsim').
+  simpl. rewrite Hvs, Hrs. rewrite (IH s' v' _ Hcs' Hsim' H2).
   rewrite (cs_lc _ _ Hcs'), (csr_blen _ _ Hcs'). reflexivity.
 Qed.
 
@@ -771,24 +812,23 @@ Qed.
 Lemma omem_true (o : list nat) (n : nat) : In n o -> omem o n = true.
 Proof. intros H. unfold omem. apply existsb_exists. exists n. split; [exact H|apply Nat.eqb_refl]. Qed.
 
-Lemma peek_holds : peek_contract.
-Proof.
-  intros st c k Hk Hmiss. unfold c_peek, c_lookup.
-  destruct (tget (c_table c) k) as [v|] eqn:E; [|reflexivity].
-  exfalso. apply tget_in in E. unfold c_entries in Hmiss.
-  destruct (c_kind c); try congruence.
-  - apply (Hmiss (nth v (c_nodes c) O)). apply in_map_iff. exists (k, v). auto.
-  - apply (Hmiss v). exact E.
-Qed.
-
-(** Entries after a deletion from the table. *)
 Definition ent (nodes : list nat) (kv : Z * nat) : Z * nat := (fst kv, nth (snd kv) nodes O).
 
-Lemma entries_lru (c : cstate) : c_kind c = KLRU -> c_entries c = map (ent (c_nodes c)) (c_table c).
-Proof. intros H. unfold c_entries. rewrite H. reflexivity. Qed.
+Lemma entries_list (c : cstate) : c_kind c <> KRandom -> c_entries c = map (ent (c_nodes c)) (c_table c).
+Proof. intros H. unfold c_entries. destruct (c_kind c); try reflexivity. congruence. Qed.
 
 Lemma entries_random (c : cstate) : c_kind c = KRandom -> c_entries c = c_table c.
 Proof. intros H. unfold c_entries. rewrite H. reflexivity. Qed.
+
+Lemma peek_holds : peek_contract.
+Proof.
+  intros st c k Hmiss. unfold c_peek, c_lookup.
+  destruct (tget (c_table c) k) as [v|] eqn:E; [|reflexivity].
+  exfalso. apply tget_in in E.
+  destruct (ckind_eq_dec (c_kind c) KRandom) as [Hr|Hr].
+  - rewrite (entries_random c Hr) in Hmiss. exact (Hmiss v E).
+  - rewrite (entries_list c Hr) in Hmiss. apply (Hmiss (nth v (c_nodes c) O)). apply in_map_iff. exists (k, v). auto.
+Qed.
 
 Lemma good_base {F b k} : good F b k -> b_base b = k.
 Proof. intros (pre & m & post & _ & _ & H & _). exact H. Qed.
@@ -810,61 +850,89 @@ Proof.
   - apply IH; assumption.
 Qed.
 
+Lemma table_keys_nodup (c : cstate) : c_kind c <> KRandom -> NoDup (map fst (c_entries c)) -> NoDup (map fst (c_table c)).
+Proof. intros Hr Nk. rewrite (entries_list c Hr), map_map in Nk. simpl in Nk. exact Nk. Qed.
+
+(** Unlinking the node indexed under [k] (LRU and FIFO). *)
+Lemma remove_ok (F : file) (st : store) (c : cstate) (k : Z) (v : nat) :
+  cache_ok F st c -> c_kind c <> KRandom -> In (k, v) (c_table c) ->
+  exists c1, c_remove st c v = Ok c1 /\ cache_ok F st c1 /\ c_kind c1 = c_kind c /\ c_cap c1 = c_cap c /\
+    c_nodes c1 = c_nodes c /\ c_choice c1 = c_choice c /\
+    (forall e, In e (c_entries c1) -> In e (c_entries c) /\ e <> (k, nth v (c_nodes c) O)).
+Proof.
+  intros [C Nk Nb G L] Hr Hin.
+  destruct (L Hr) as (Nn & No & Hio & Hlt).
+  assert (Hent : In (k, nth v (c_nodes c) O) (c_entries c)).
+  { rewrite (entries_list c Hr). apply in_map_iff. exists (k, v). auto. }
+  unfold c_remove. rewrite (omem_true _ _ (proj2 (Hio v) ltac:(apply in_map_iff; exists (k, v); auto))).
+  destruct (G _ _ Hent) as [Hl Hg]. rewrite (good_base Hg).
+  eexists. split; [reflexivity|].
+  set (c1 := mkC (c_kind c) (c_cap c) (c_nodes c) (odel (c_order c) v) (tdel (c_table c) k) (c_choice c)).
+  assert (Hr1 : c_kind c1 <> KRandom) by exact Hr.
+  assert (He1 : c_entries c1 = map (ent (c_nodes c)) (tdel (c_table c) k)) by (rewrite (entries_list c1 Hr1); reflexivity).
+  assert (Hnk : NoDup (map fst (c_table c))) by (apply table_keys_nodup; assumption).
+  assert (Hsub : forall e, In e (c_entries c1) -> In e (c_entries c) /\ e <> (k, nth v (c_nodes c) O)).
+  { intros e He. rewrite He1 in He. apply in_map_iff in He. destruct He as ([k' v'] & E' & Hin'). apply tdel_in in Hin'. destruct Hin' as [Hin' Hne].
+    simpl in Hne. subst e. split.
+    - rewrite (entries_list c Hr). apply in_map_iff. exists (k', v'). auto.
+    - unfold ent. simpl. intros Heq. inversion Heq. congruence. }
+  split; [|repeat split; try reflexivity; apply Hsub; assumption].
+  constructor.
+  - exact C.
+  - rewrite He1, map_map. simpl. apply (NoDup_map_tdel fst). exact Hnk.
+  - unfold bids. rewrite He1, map_map. unfold bids in Nb. rewrite (entries_list c Hr), map_map in Nb. apply NoDup_map_tdel. exact Nb.
+  - intros k' b' Hin'. apply G. apply (Hsub _ Hin').
+  - intros _. unfold lru_ok, c1. simpl. split; [apply NoDup_map_tdel; exact Nn|]. split; [apply NoDup_odel; exact No|]. split.
+    + intros x. rewrite (odel_in _ _ _ No), Hio. split.
+      * intros [Hx Hne]. apply in_map_iff in Hx. destruct Hx as ([k' v'] & E' & Hin'). simpl in E'. subst v'.
+        apply in_map_iff. exists (k', x). split; [reflexivity|]. apply tdel_in. split; [exact Hin'|]. simpl.
+        intros ->. apply Hne. apply (table_unique _ k k x v Hnk Nn Hin' Hin). reflexivity.
+      * intros Hx. apply in_map_iff in Hx. destruct Hx as ([k' v'] & E' & Hin'). simpl in E'. subst v'.
+        apply tdel_in in Hin'. destruct Hin' as [Hin' Hne]. simpl in Hne. split.
+        -- apply in_map_iff. exists (k', x). auto.
+        -- intros ->. apply Hne. apply (table_unique _ k' k v v Hnk Nn Hin' Hin). reflexivity.
+    + intros x Hx. apply Hlt. apply in_map_iff in Hx. destruct Hx as (e & E' & Hin'). apply tdel_in in Hin'.
+      apply in_map_iff. exists e. tauto.
+Qed.
+
 Lemma get_holds (F : file) : get_contract F.
 Proof.
-  intros st c k [K C Nk Nb G L]. unfold c_get, c_lookup.
+  intros st c k Hok. pose proof Hok as [C Nk Nb G L]. unfold c_get, c_lookup.
   destruct (tget (c_table c) k) as [v|] eqn:E.
   2:{ split; [reflexivity|]. intros bid Hin. pose proof (tget_none _ _ E) as Hn.
-      unfold c_entries in Hin. destruct (c_kind c).
-      - apply in_map_iff in Hin. destruct Hin as ([k' v'] & E' & Hin). inversion E'; subst. exact (Hn _ Hin).
-      - congruence.
-      - exact (Hn _ Hin). }
+      destruct (ckind_eq_dec (c_kind c) KRandom) as [Hr|Hr].
+      - rewrite (entries_random c Hr) in Hin. exact (Hn _ Hin).
+      - rewrite (entries_list c Hr) in Hin. apply in_map_iff in Hin. destruct Hin as ([k' v'] & E' & Hin). inversion E'; subst. exact (Hn _ Hin). }
   pose proof (tget_in _ _ _ E) as Hin.
-  destruct (c_kind c) eqn:Hk; try congruence.
+  destruct (c_kind c) eqn:Hk.
   - (* LRU *)
-    destruct (L eq_refl) as (Nn & No & Hio & Hlt).
-    assert (Hent : In (k, nth v (c_nodes c) O) (c_entries c)).
-    { rewrite (entries_lru c Hk). apply in_map_iff. exists (k, v). auto. }
-    unfold c_remove. rewrite (omem_true _ _ (proj2 (Hio v) ltac:(apply in_map_iff; exists (k, v); auto))).
-    destruct (G _ _ Hent) as [Hl Hg]. rewrite (good_base Hg).
-    split; [exact Hent|].
-    assert (Hsub : forall e, In e (map (ent (c_nodes c)) (tdel (c_table c) k)) -> In e (c_entries c) /\ e <> (k, nth v (c_nodes c) O)).
-    { intros e He. apply in_map_iff in He. destruct He as ([k' v'] & E' & Hin'). apply tdel_in in Hin'. destruct Hin' as [Hin' Hne].
-      simpl in Hne. subst e. split.
-      - rewrite (entries_lru c Hk). apply in_map_iff. exists (k', v'). auto.
-      - unfold ent. simpl. intros Heq. inversion Heq. congruence. }
-    split; [|unfold c_entries at 1; simpl; intros e He; try rewrite Hk in He; apply Hsub; exact He].
-    assert (Hnk : NoDup (map fst (c_table c))).
-    { rewrite (entries_lru c Hk) in Nk. rewrite map_map in Nk. simpl in Nk. exact Nk. }
-    constructor; simpl; try rewrite Hk; auto; try congruence.
-    + unfold c_entries. simpl. rewrite map_map. simpl. apply (NoDup_map_tdel fst). exact Hnk.
-    + unfold bids, c_entries. simpl. rewrite map_map.
-      unfold bids in Nb. rewrite (entries_lru c Hk), map_map in Nb. apply NoDup_map_tdel. exact Nb.
-    + intros k' b' Hin'. unfold c_entries in Hin'. simpl in Hin'.
-      apply G. apply (Hsub _ Hin').
-    + intros _. unfold lru_ok. simpl. split; [apply NoDup_map_tdel; exact Nn|]. split; [apply NoDup_odel; exact No|]. split.
-      * intros x. rewrite (odel_in _ _ _ No), Hio. split.
-        -- intros [Hx Hne]. apply in_map_iff in Hx. destruct Hx as ([k' v'] & E' & Hin'). simpl in E'. subst v'.
-           apply in_map_iff. exists (k', x). split; [reflexivity|]. apply tdel_in. split; [exact Hin'|]. simpl.
-           intros ->. apply Hne. apply (table_unique _ k k x v Hnk Nn Hin' Hin). reflexivity.
-        -- intros Hx. apply in_map_iff in Hx. destruct Hx as ([k' v'] & E' & Hin'). simpl in E'. subst v'.
-           apply tdel_in in Hin'. destruct Hin' as [Hin' Hne]. simpl in Hne. split.
-           ++ apply in_map_iff. exists (k', x). auto.
-           ++ intros ->. apply Hne. apply (table_unique _ k' k v v Hnk Nn Hin' Hin). reflexivity.
-      * intros x Hx. apply Hlt. apply in_map_iff in Hx. destruct Hx as (e & E' & Hin'). apply tdel_in in Hin'.
-        apply in_map_iff. exists e. tauto.
+    destruct (remove_ok F st c k v Hok ltac:(congruence) Hin) as (c1 & Hrm & Hok1 & K1 & _ & _ & _ & Hsub).
+    rewrite Hrm.
+    split; [rewrite (entries_list c ltac:(congruence)); apply in_map_iff; exists (k, v); auto|].
+    split; [exact Hok1|]. split; [congruence|]. split; [intros e He; apply (Hsub e He)|intros _ e He; apply (Hsub e He)].
+  - (* FIFO *)
+    assert (Hent : In (k, nth v (c_nodes c) O) (c_entries c)) by (rewrite (entries_list c ltac:(congruence)); apply in_map_iff; exists (k, v); auto).
+    destruct (b_used (sget st (nth v (c_nodes c) O))).
+    + split; [exact Hent|]. split; [exact Hok|]. split; [exact Hk|]. split; [auto|intros Hx; congruence].
+    + destruct (remove_ok F st c k v Hok ltac:(congruence) Hin) as (c1 & Hrm & Hok1 & K1 & _ & _ & _ & Hsub).
+      rewrite Hrm.
+      split; [exact Hent|]. split; [exact Hok1|]. split; [congruence|]. split; [intros e He; apply (Hsub e He)|intros _ e He; apply (Hsub e He)].
   - (* Random *)
     assert (Hent : In (k, v) (c_entries c)) by (rewrite (entries_random c Hk); exact Hin).
     split; [exact Hent|].
-    assert (Hsub : forall e, In e (tdel (c_table c) k) -> In e (c_entries c) /\ e <> (k, v)).
-    { intros e He. apply tdel_in in He. destruct He as [He Hne]. split; [rewrite (entries_random c Hk); exact He|].
+    set (c1 := mkC KRandom (c_cap c) (c_nodes c) (c_order c) (tdel (c_table c) k) (c_choice c)).
+    assert (He1 : c_entries c1 = tdel (c_table c) k) by reflexivity.
+    assert (Hsub : forall e, In e (c_entries c1) -> In e (c_entries c) /\ e <> (k, v)).
+    { intros e He. rewrite He1 in He. apply tdel_in in He. destruct He as [He Hne]. split; [rewrite (entries_random c Hk); exact He|].
       intros ->. simpl in Hne. congruence. }
-    split; [|unfold c_entries at 1; simpl; intros e He; try rewrite Hk in He; apply Hsub; exact He].
     rewrite (entries_random c Hk) in Nk. unfold bids in Nb. rewrite (entries_random c Hk) in Nb.
-    constructor; simpl; try rewrite Hk; auto; try congruence.
-    + unfold c_entries. simpl. apply NoDup_map_tdel. exact Nk.
-    + unfold bids, c_entries. simpl. apply NoDup_map_tdel. exact Nb.
-    + intros k' b' Hin'. unfold c_entries in Hin'. simpl in Hin'. apply G. apply (Hsub _ Hin').
+    split; [|split; [reflexivity|split; [intros e He; apply (Hsub e He)|intros _ e He; apply (Hsub e He)]]].
+    constructor.
+    + exact C.
+    + rewrite He1. apply NoDup_map_tdel. exact Nk.
+    + unfold bids. rewrite He1. apply NoDup_map_tdel. exact Nb.
+    + intros k' b' Hin'. apply G. apply (Hsub _ Hin').
+    + simpl. congruence.
 Qed.
 
 Lemma tget_of_in (t : list (Z * nat)) (k : Z) (v : nat) : NoDup (map fst t) -> In (k, v) t -> tget t k = Some v.
@@ -885,8 +953,8 @@ Proof.
 Qed.
 
 (** Inserting a fresh good block. *)
-Lemma ins_lru_ok (F : file) (st : store) (c1 : cstate) (bid : nat) (kb : Z) (front : bool) :
-  cache_ok F st c1 -> c_kind c1 = KLRU -> (bid < length st)%nat -> good F (sget st bid) kb ->
+Lemma ins_list_ok (F : file) (st : store) (c1 : cstate) (bid : nat) (kb : Z) (front : bool) :
+  cache_ok F st c1 -> c_kind c1 <> KRandom -> (bid < length st)%nat -> good F (sget st bid) kb ->
   ~ In bid (bids c1) -> (forall b, ~ In (kb, b) (c_entries c1)) ->
   let nid := length (c_nodes c1) in
   let c2 := mkC (c_kind c1) (c_cap c1) (c_nodes c1 ++ [bid])
@@ -894,15 +962,15 @@ Lemma ins_lru_ok (F : file) (st : store) (c1 : cstate) (bid : nat) (kb : Z) (fro
                 ((kb, nid) :: c_table c1) (c_choice c1) in
   cache_ok F st c2 /\ c_entries c2 = (kb, bid) :: c_entries c1.
 Proof.
-  intros [K C Nk Nb G L] Hk Hbl Hg Hnb Hnk nid c2.
+  intros [C Nk Nb G L] Hk Hbl Hg Hnb Hnk nid c2.
   destruct (L Hk) as (Nn & No & Hio & Hlt).
+  assert (Hk2 : c_kind c2 <> KRandom) by exact Hk.
   assert (He : c_entries c2 = (kb, bid) :: c_entries c1).
-  { unfold c_entries, c2. simpl. rewrite Hk. simpl. unfold nid. rewrite nth_middle. f_equal.
-    apply map_ext_in. intros [k' v'] Hin. simpl. f_equal. apply app_nth1. apply Hlt.
+  { rewrite (entries_list c2 Hk2), (entries_list c1 Hk). unfold c2. simpl. unfold ent at 1. simpl. unfold nid. rewrite nth_middle. f_equal.
+    apply map_ext_in. intros [k' v'] Hin. unfold ent. simpl. f_equal. apply app_nth1. apply Hlt.
     apply in_map_iff. exists (k', v'). auto. }
   split; [|exact He].
   constructor.
-  - simpl. exact K.
   - simpl. exact C.
   - rewrite He. simpl. constructor; [|exact Nk]. intros Hin. apply in_map_iff in Hin. destruct Hin as ([k' b'] & E & Hin).
     simpl in E. subst k'. exact (Hnk _ Hin).
@@ -922,10 +990,6 @@ Proof.
       * intros x [E|Hx]; rewrite app_length; simpl; [subst x; unfold nid; lia|apply Hlt in Hx; lia].
 Qed.
 
-Lemma c_remove_fields (st : store) (c c1 : cstate) (n : nat) : c_remove st c n = Ok c1 ->
-  c_kind c1 = c_kind c /\ c_cap c1 = c_cap c /\ c_nodes c1 = c_nodes c /\ c_choice c1 = c_choice c.
-Proof. unfold c_remove. destruct (omem (c_order c) n); [|discriminate]. intros H; inversion H; subst; simpl; auto. Qed.
-
 Lemma random_ins_ok (F : file) (st : store) (c : cstate) (t' : list (Z * nat)) (ch' : list nat) (bid : nat) (kb : Z) :
   cache_ok F st c -> c_kind c = KRandom -> (bid < length st)%nat -> good F (sget st bid) kb ->
   ~ In bid (bids c) -> (forall b, ~ In (kb, b) (c_entries c)) ->
@@ -933,12 +997,11 @@ Lemma random_ins_ok (F : file) (st : store) (c : cstate) (t' : list (Z * nat)) (
   let c2 := mkC (c_kind c) (c_cap c) (c_nodes c) (c_order c) ((kb, bid) :: t') ch' in
   cache_ok F st c2 /\ (forall e, In e (c_entries c2) -> e = (kb, bid) \/ In e (c_entries c)).
 Proof.
-  intros [K C Nk Nb G L] Hk Hbl Hg Hnb Hnk Hsub N1 N2 c2.
+  intros [C Nk Nb G L] Hk Hbl Hg Hnb Hnk Hsub N1 N2 c2.
   assert (He : c_entries c2 = (kb, bid) :: t') by (unfold c_entries, c2; simpl; rewrite Hk; reflexivity).
   unfold bids in Nb, Hnb. rewrite (entries_random c Hk) in Nk, Nb, Hnb, Hnk.
   split.
   - constructor.
-    + simpl. exact K.
     + simpl. exact C.
     + rewrite He. simpl. constructor; [|exact N1]. intros Hin. apply in_map_iff in Hin. destruct Hin as ([k' b'] & E & Hin).
       simpl in E. subst k'. exact (Hnk _ (Hsub _ Hin)).
@@ -946,78 +1009,137 @@ Proof.
       apply in_map_iff in Hin. destruct Hin as (e & E & Hin). apply in_map_iff. exists e. split; [exact E|apply Hsub; exact Hin].
     + intros k' b' Hin. rewrite He in Hin. destruct Hin as [E|Hin]; [inversion E; subst; auto|].
       apply G. rewrite (entries_random c Hk). apply Hsub. exact Hin.
-    + simpl. intros Hx. rewrite Hk in Hx. discriminate.
+    + simpl. intros Hx. rewrite Hk in Hx. congruence.
   - intros e Hin. rewrite He in Hin. rewrite (entries_random c Hk). destruct Hin as [E|Hin]; [left; auto|right; apply Hsub; exact Hin].
+Qed.
+
+(** LRU / FIFO: the key is free, insert (evicting the back of the list when full). *)
+Lemma put_list_free (F : file) (st : store) (c : cstate) (bid : nat) (kb : Z) :
+  cache_ok F st c -> c_kind c <> KRandom -> (bid < length st)%nat -> good F (sget st bid) kb ->
+  ~ In bid (bids c) -> (forall b, ~ In (kb, b) (c_entries c)) -> tget (c_table c) kb = None ->
+  match c_put st c bid with
+  | Ok (c', back, false) => c' = c /\ back = Some bid
+  | Ok (c', back, true) => cache_ok F st c' /\ c_kind c' = c_kind c /\ (forall e, In e (c_entries c') -> e = (kb, bid) \/ In e (c_entries c))
+  | _ => False
+  end.
+Proof.
+  intros Hok Hr Hbl Hg Hnb Hnk E.
+  pose proof Hok as [C Nk Nb G L]. destruct (L Hr) as (Nn & No & Hio & Hlt).
+  unfold c_put. rewrite (good_base Hg), E.
+  assert (Hnotfull : forall front : bool,
+            let nid := length (c_nodes c) in
+            let c2 := mkC (c_kind c) (c_cap c) (c_nodes c ++ [bid]) (if front then nid :: c_order c else c_order c ++ [nid]) ((kb, nid) :: c_table c) (c_choice c) in
+            cache_ok F st c2 /\ c_kind c2 = c_kind c /\ (forall e, In e (c_entries c2) -> e = (kb, bid) \/ In e (c_entries c))).
+  { intros front nid c2. destruct (ins_list_ok F st c bid kb front Hok Hr Hbl Hg Hnb Hnk) as [Hok2 He2].
+    split; [exact Hok2|]. split; [reflexivity|].
+    intros e He. fold nid in He2. fold c2 in He2. rewrite He2 in He. destruct He as [<-|He]; [left; reflexivity|right; exact He]. }
+  assert (Hevict : forall nv rest, rev (c_order c) = nv :: rest ->
+            match c_remove st c nv with
+            | Ok c1 =>
+                let nid := length (c_nodes c1) in
+                let c2 := mkC (c_kind c1) (c_cap c1) (c_nodes c1 ++ [bid]) (nid :: c_order c1) ((kb, nid) :: c_table c1) (c_choice c1) in
+                cache_ok F st c2 /\ c_kind c2 = c_kind c /\ (forall e, In e (c_entries c2) -> e = (kb, bid) \/ In e (c_entries c))
+            | _ => False end).
+  { intros nv rest Hrev.
+    assert (Hinv : In nv (c_order c)) by (apply in_rev; rewrite Hrev; left; reflexivity).
+    apply Hio in Hinv. apply in_map_iff in Hinv. destruct Hinv as ([kv nv'] & Ev & Hinv). simpl in Ev. subst nv'.
+    destruct (remove_ok F st c kv nv Hok Hr Hinv) as (c1 & Hrm & Hok1 & K1 & K2 & K3 & K4 & Hsub1).
+    rewrite Hrm.
+    assert (Hnb1 : ~ In bid (bids c1)).
+    { intros Hx. apply Hnb. unfold bids in *. apply in_map_iff in Hx. destruct Hx as (e & E1 & Hx).
+      apply in_map_iff. exists e. split; [exact E1|apply (Hsub1 _ Hx)]. }
+    assert (Hnk1 : forall b0, ~ In (kb, b0) (c_entries c1)) by (intros b0 Hx; exact (Hnk b0 (proj1 (Hsub1 _ Hx)))).
+    destruct (ins_list_ok F st c1 bid kb true Hok1 ltac:(congruence) Hbl Hg Hnb1 Hnk1) as [Hok2 He2].
+    cbv zeta. split; [exact Hok2|]. split; [simpl; exact K1|].
+    intros e He. rewrite He2 in He. destruct He as [<-|He]; [left; reflexivity|right; apply (Hsub1 _ He)]. }
+  assert (Hrevne : tlen c =? c_cap c = true -> rev (c_order c) <> []).
+  { intros Hfull Hrev. apply Z.eqb_eq in Hfull. unfold tlen in Hfull.
+    destruct (c_table c) as [|[k0 n0] t0] eqn:Ht; [rewrite zlen_nil in Hfull; lia|].
+    assert (Hin0 : In n0 (c_order c)) by (apply Hio; simpl; left; reflexivity).
+    apply in_rev in Hin0. rewrite Hrev in Hin0. exact Hin0. }
+  destruct (c_kind c) eqn:Hk; try congruence.
+  - destruct (tlen c =? c_cap c) eqn:Hfull.
+    + destruct (b_used (sget st bid)) eqn:Hu; simpl negb; cbv iota; [|split; reflexivity].
+      destruct (rev (c_order c)) as [|nv rest] eqn:Hrev; [exfalso; apply (Hrevne eq_refl); reflexivity|].
+      specialize (Hevict nv rest eq_refl). destruct (c_remove st c nv) as [c1| | |]; try contradiction. exact Hevict.
+    + exact (Hnotfull (b_used (sget st bid))).
+  - destruct (tlen c =? c_cap c) eqn:Hfull.
+    + destruct (b_used (sget st bid)) eqn:Hu; simpl negb; cbv iota; [|split; reflexivity].
+      destruct (rev (c_order c)) as [|nv rest] eqn:Hrev; [exfalso; apply (Hrevne eq_refl); reflexivity|].
+      specialize (Hevict nv rest eq_refl). destruct (c_remove st c nv) as [c1| | |]; try contradiction. exact Hevict.
+    + exact (Hnotfull (b_used (sget st bid))).
 Qed.
 
 Lemma put_holds (F : file) : put_contract F.
 Proof.
-  intros st c bid kb Hok Hbl Hg Hnb. unfold c_put. rewrite (good_base Hg).
-  destruct (tget (c_table c) kb) as [x|] eqn:E; [split; reflexivity|].
-  assert (Hnk : forall b, ~ In (kb, b) (c_entries c)).
-  { intros b Hin. pose proof (tget_none _ _ E) as Hn. unfold c_entries in Hin. destruct (c_kind c).
-    - apply in_map_iff in Hin. destruct Hin as ([k' v'] & E' & Hin). inversion E'; subst. exact (Hn _ Hin).
-    - apply in_map_iff in Hin. destruct Hin as ([k' v'] & E' & Hin). inversion E'; subst. exact (Hn _ Hin).
-    - exact (Hn _ Hin). }
-  pose proof Hok as [K C Nk Nb G L].
-  destruct (c_kind c) eqn:Hk; try congruence.
-  - (* LRU *)
-    destruct (L eq_refl) as (Nn & No & Hio & Hlt).
-    assert (Hnkt : NoDup (map fst (c_table c))).
-    { rewrite (entries_lru c Hk) in Nk. rewrite map_map in Nk. simpl in Nk. exact Nk. }
-    destruct (tlen c =? c_cap c) eqn:Hfull.
-    + destruct (b_used (sget st bid)) eqn:Hu; simpl negb; cbv iota; [|split; reflexivity].
-      (* eviction of the node at the back of the list *)
-      destruct (rev (c_order c)) as [|nv rest] eqn:Hrev.
-      { exfalso. apply Z.eqb_eq in Hfull. unfold tlen in Hfull.
-        destruct (c_table c) as [|[k0 n0] t0] eqn:Ht; [rewrite zlen_nil in Hfull; lia|].
-        assert (Hin0 : In n0 (c_order c)) by (apply Hio; simpl; left; reflexivity).
-        apply in_rev in Hin0. rewrite Hrev in Hin0. exact Hin0. }
-      assert (Hinv : In nv (c_order c)) by (apply in_rev; rewrite Hrev; left; reflexivity).
-      apply Hio in Hinv. apply in_map_iff in Hinv. destruct Hinv as ([kv nv'] & Ev & Hinv). simpl in Ev. subst nv'.
-      pose proof (get_holds F st c kv Hok) as HG. unfold c_get, c_lookup in HG.
-      rewrite (tget_of_in _ _ _ Hnkt Hinv), Hk in HG.
-      destruct (c_remove st c nv) as [c1| | |] eqn:Hrm; try contradiction.
-      destruct HG as (Hin1 & Hok1 & Hsub1).
-      destruct (c_remove_fields _ _ _ _ Hrm) as (F1 & F2 & F3 & F4).
-      assert (Hnb1 : ~ In bid (bids c1)).
-      { intros Hx. apply Hnb. unfold bids in *. apply in_map_iff in Hx. destruct Hx as (e & E1 & Hx).
-        apply in_map_iff. exists e. split; [exact E1|apply (Hsub1 _ Hx)]. }
-      assert (Hnk1 : forall b, ~ In (kb, b) (c_entries c1)) by (intros b Hx; exact (Hnk b (proj1 (Hsub1 _ Hx)))).
-      destruct (ins_lru_ok F st c1 bid kb true Hok1 ltac:(congruence) Hbl Hg Hnb1 Hnk1) as [Hok2 He2].
-      split; [exact Hok2|]. intros e He. rewrite He2 in He. destruct He as [<-|He]; [left; reflexivity|right; apply (Hsub1 _ He)].
-    + destruct (ins_lru_ok F st c bid kb (b_used (sget st bid)) Hok Hk Hbl Hg Hnb Hnk) as [Hok2 He2].
-      rewrite Hk in Hok2, He2.
-      split; [exact Hok2|]. intros e He. rewrite He2 in He. destruct He as [<-|He]; [left; reflexivity|right; exact He].
-  - (* Random *)
-    rewrite (entries_random c Hk) in Nk. unfold bids in Nb. rewrite (entries_random c Hk) in Nb.
-    destruct (tlen c =? c_cap c) eqn:Hfull.
-    + destruct (b_used (sget st bid)) eqn:Hu; simpl negb; cbv iota; [|split; reflexivity].
-      match goal with |- context [nth_error ?cands ?idx] => destruct (nth_error cands idx) as [[k v]|] eqn:Hnth end.
-      * assert (Hinkv : In (k, v) (c_table c)).
-        { apply nth_error_In in Hnth.
-          destruct (filter (fun kv : Z * nat => negb (b_used (sget st (snd kv)))) (c_table c)) eqn:Hf; [exact Hnth|].
-          rewrite <- Hf in Hnth. apply filter_In in Hnth. tauto. }
-        pose proof (random_ins_ok F st c (tdel (c_table c) k) (tl (c_choice c)) bid kb Hok Hk Hbl Hg Hnb Hnk
-                      ltac:(intros e He; apply tdel_in in He; tauto) (NoDup_map_tdel fst _ k Nk) (NoDup_map_tdel snd _ k Nb)) as Hx.
-        rewrite Hk in Hx. exact Hx.
+  intros st c bid kb Hok Hbl Hg Hpre. unfold c_put. rewrite (good_base Hg).
+  pose proof Hok as [C Nk Nb G L].
+  destruct (tget (c_table c) kb) as [x|] eqn:E.
+  - (* the key is indexed *)
+    pose proof (tget_in _ _ _ E) as Hinx.
+    destruct (c_kind c) eqn:Hk.
+    + (* LRU *) destruct Hpre as [Hn|Hf]; [|congruence]. split; [reflexivity|]. left. split; [reflexivity|exact Hn].
+    + (* FIFO *)
+      assert (Hr : c_kind c <> KRandom) by congruence.
+      assert (Hentx : In (kb, nth x (c_nodes c) O) (c_entries c)) by (rewrite (entries_list c Hr); apply in_map_iff; exists (kb, x); auto).
+      destruct (Nat.eqb_spec (nth x (c_nodes c) O) bid) as [Eb|Nb'].
+      * split; [reflexivity|]. right. split; [reflexivity|]. unfold bids. apply in_map_iff. exists (kb, bid). split; [reflexivity|]. rewrite <- Eb. exact Hentx.
+      * split; [reflexivity|]. left. split; [reflexivity|]. intros Hx.
+        pose proof (entry_of_bid F st c bid kb Hok Hx Hg) as Hent2.
+        (* two entries under key kb *)
+        apply Nb'. clear -Nk Hentx Hent2.
+        induction (c_entries c) as [|[a b0] l IH]; [contradiction|]. simpl in Nk. inversion Nk; subst.
+        destruct Hentx as [E1|I1]; destruct Hent2 as [E2|I2].
+        -- congruence.
+        -- inversion E1; subst. exfalso. apply H1. apply in_map_iff. exists (kb, bid). auto.
+        -- inversion E2; subst. exfalso. apply H1. apply in_map_iff. exists (kb, nth x (c_nodes c) O). auto.
+        -- apply IH; assumption.
+    + (* Random *) destruct Hpre as [Hn|Hf]; [|congruence]. split; [reflexivity|]. left. split; [reflexivity|exact Hn].
+  - (* the key is free: the block is not held *)
+    assert (Hnk : forall b, ~ In (kb, b) (c_entries c)).
+    { intros b Hin. pose proof (tget_none _ _ E) as Hn.
+      destruct (ckind_eq_dec (c_kind c) KRandom) as [Hr|Hr].
+      - rewrite (entries_random c Hr) in Hin. exact (Hn _ Hin).
+      - rewrite (entries_list c Hr) in Hin. apply in_map_iff in Hin. destruct Hin as ([k' v'] & E' & Hin). inversion E'; subst. exact (Hn _ Hin). }
+    assert (Hnb : ~ In bid (bids c)).
+    { intros Hx. exact (Hnk bid (entry_of_bid F st c bid kb Hok Hx Hg)). }
+    destruct (ckind_eq_dec (c_kind c) KRandom) as [Hk|Hr].
+    2:{ pose proof (put_list_free F st c bid kb Hok Hr Hbl Hg Hnb Hnk E) as HP.
+        unfold c_put in HP. rewrite (good_base Hg), E in HP.
+        match goal with |- match ?Y with _ => _ end =>
+          match type of HP with match ?X with _ => _ end => change X with Y in HP; destruct Y as [[[c' back] [|]]| | |] end end; try contradiction.
+        - destruct HP as (A & B & D). split; [exact Hnb|]. split; [exact A|]. split; [exact B|exact D].
+        - destruct HP as [-> ->]. split; [reflexivity|]. left. split; [reflexivity|exact Hnb]. }
+    rewrite Hk.
+    + (* Random *)
+      rewrite (entries_random c Hk) in Nk. unfold bids in Nb. rewrite (entries_random c Hk) in Nb.
+      destruct (tlen c =? c_cap c) eqn:Hfull.
+      * destruct (b_used (sget st bid)) eqn:Hu; simpl negb; cbv iota; [|split; [reflexivity|left; split; [reflexivity|exact Hnb]]].
+        match goal with |- context [nth_error ?cands ?idx] => destruct (nth_error cands idx) as [[k v]|] eqn:Hnth end.
+        -- assert (Hinkv : In (k, v) (c_table c)).
+           { apply nth_error_In in Hnth.
+             destruct (filter (fun kv : Z * nat => negb (b_used (sget st (snd kv)))) (c_table c)) eqn:Hf; [exact Hnth|].
+             rewrite <- Hf in Hnth. apply filter_In in Hnth. tauto. }
+           pose proof (random_ins_ok F st c (tdel (c_table c) k) (tl (c_choice c)) bid kb Hok Hk Hbl Hg Hnb Hnk
+                         ltac:(intros e He; apply tdel_in in He; tauto) (NoDup_map_tdel fst _ k Nk) (NoDup_map_tdel snd _ k Nb)) as Hx.
+           rewrite Hk in Hx. destruct Hx as [A B]. split; [exact Hnb|]. split; [exact A|]. split; [reflexivity|exact B].
+        -- pose proof (random_ins_ok F st c (c_table c) (c_choice c) bid kb Hok Hk Hbl Hg Hnb Hnk ltac:(auto) Nk Nb) as Hx.
+           rewrite Hk in Hx. destruct Hx as [A B]. split; [exact Hnb|]. split; [exact A|]. split; [reflexivity|exact B].
       * pose proof (random_ins_ok F st c (c_table c) (c_choice c) bid kb Hok Hk Hbl Hg Hnb Hnk ltac:(auto) Nk Nb) as Hx.
-        rewrite Hk in Hx. exact Hx.
-    + pose proof (random_ins_ok F st c (c_table c) (c_choice c) bid kb Hok Hk Hbl Hg Hnb Hnk ltac:(auto) Nk Nb) as Hx.
-      rewrite Hk in Hx. exact Hx.
+        rewrite Hk in Hx. destruct Hx as [A B]. split; [exact Hnb|]. split; [exact A|]. split; [reflexivity|exact B].
 Qed.
 
 (** ---- C03, rd = 1 *)
 
 Theorem cache_transparent_sync_proof (F : file) (ch : list nat) (ops : list rop) :
-  wf_file F = true -> F <> [] -> Forall (valid_op F) ops -> Forall cache_op_ok ops ->
+  wf_file F = true -> F <> [] -> Forall (valid_op F) ops ->
   r_run F ch (fst (r_init F)) ops = v_run F (fst (v_init F)) ops /\
   exists l, v_run F (fst (v_init F)) ops = Ok l /\ length l = length ops.
 Proof.
-  intros W Hne Hv Hc.
+  intros W Hne Hv.
   destruct (init_sim F W Hne) as [Hs _].
   split.
-  - apply (run_c F W (get_holds F) (put_holds F) peek_holds ch ops _ _ f_init); [apply init_csr; assumption|exact Hs|exact Hv|exact Hc].
+  - apply (run_c F W (get_holds F) (put_holds F) peek_holds ch ops _ _ f_init); [apply init_csr; assumption|exact Hs|exact Hv].
   - destruct (v_refines_flat F ops W Hne Hv) as (_ & l & Hl & H1 & _). exists l. split; [exact Hl|].
     apply (f_equal (@length _)) in H1. unfold rets in H1. rewrite !map_length, flat_run_length in H1. exact H1.
 Qed.
